@@ -58,6 +58,8 @@ MonthS(e) ==
                                 Mul(Mul(Mul(Mul(pop, hb.milkYield), I(610)), Sub(One, Pct(hb.wDistMilk))), Sub(One, Pct(hb.wRetail))))
                         ELSE Eq(e.milk, Zero))
   /\ Ck("FeedCoversHerd", hb.round # 3 \/ Le(e.feedEaten, e.feedCharged))
+  \* the ceiling of the feed-maximising round is what its herds eat when offered the whole demand - not the demand itself
+  /\ Ck("CeilingIsWhatHerdsEat", hb.round # 2 \/ Eq(e.feedCharged, e.feedEaten))
   \* the herds never eat more feed than they were offered; the final round's herds are offered at most what the
   \* feed-maximising round allocated to feed (its result less the safety margin), never the full demand
   /\ Ck("EatenWithinOffered", Le(e.feedEaten, e.feedOffered))
